@@ -292,6 +292,15 @@ class C05(Prop):
                     if got != both:
                         return False, (f"({a!r} & {b!r}).contains({c!r}, prereleases=True) = {got}; "
                                        f"a: {a.contains(c, prereleases=True)}, b: {b.contains(c, prereleases=True)}")
+                # `&` leaves its operands alone, also afterwards: the result is the caller's to change (its override is
+                # settable), and nothing of that may show in the operands
+                snap = [(str(x), x.prereleases, x._prereleases, len(x), [x.contains(c) for c in inp["cands"]]) for x in (a, b)]
+                for val in (True, False, None):
+                    r.prereleases = val
+                    now = [(str(x), x.prereleases, x._prereleases, len(x), [x.contains(c) for c in inp["cands"]]) for x in (a, b)]
+                    if now != snap:
+                        return False, (f"after `r = {a!r} & {b!r}` (overrides {oa}, {ob_}), setting r.prereleases = {val} changed an operand: "
+                                       f"{snap} -> {now}")
             return True, ""
 
         if law == "comm_assoc":
